@@ -8,6 +8,21 @@ Each value is placed in every clause position (select list, WHERE comparison,
 IN list, INSERT VALUES, CASE, concatenation, text() bind, LIMIT/OFFSET for
 ints, DDL server default and CHECK constraint for strings).
 
+Value kinds beyond the plain types (the literal is a string literal, the value / rendering route is not String's):
+  tagobj    TypeDecorator over String whose process_bind_param() turns an application object (Tag) into text: the
+            Python value handed to render_literal_value() is NOT a str.  Every Tag(s), s a string <=2 over the
+            alphabet + idioms; all positions, executed (4 paramstyles) and lexed (14 dialect configurations).
+  jsonpath  a JSON path given as a (key, index) tuple (JSON.JSONPathType bind and ``col[(key, index)]``), lexed on
+            every dialect that renders JSON paths; the literal must decode to exactly what the type's own bind
+            processor sends on the bound route.
+  bindexpr  a type with bind_expression() (``lower(<value>)`` around every element).  Strings over the alphabet of
+            the list / wrapper syntax itself ``' , space ( ) a`` of length <=3 (thorough <=4), in every
+            position incl. IN / NOT IN lists; the alphabet strings are rows of the table so IN / NOT IN discriminate.
+            Executed on SQLite (literal_binds, literal_execute, render_postcompile vs bound); lexed (literal_binds,
+            <=2 + idioms such as ``'), lower('``).
+A failure class that the plain str of the same text shows too is String's (already reported) defect and is not
+reported again under these kinds.
+
 Oracles (differential between the routes the property names):
 
 X  SQLite, executed.  Four engines that differ only in DBAPI paramstyle
@@ -42,6 +57,11 @@ Findings on the unchanged tree (reported; stable signatures):
     (proposed_fixes/c05_text_literal_backslash_colon.diff)
   * a literal_binds value containing ``%(name)s`` is rewritten by the positional
     post-processing (``'?'`` on qmark, ``'%s'`` on format, KeyError on numeric_dollar)
+  * IN list of a type with bind_expression() on the literal_execute / render_postcompile route: the wrapper is
+    re-applied by ``expr.split(", ")`` on the already rendered literals (SQLCompiler._process_parameters_for_postcompile
+    .process_expanding), an element containing ``, `` is cut inside its quoted literal -> rows differ from bound
+    (``exec sqlite: bindexpr value ', ': literal_execute-rows-differ; render_postcompile-rows-differ``;
+    proposed_fixes/c05_literal_execute_bind_expression_split.diff)
 
 Mutations caught (each in a private copy, VF_REPO=/tmp/wt-strings/<m>):
   * String.literal_processor: ``'`` doubling dropped -> exec raises / rows differ on every value with ``'``
@@ -49,6 +69,10 @@ Mutations caught (each in a private copy, VF_REPO=/tmp/wt-strings/<m>):
   * PostgreSQL render_literal_value: backslash doubling applied unconditionally -> ``lex postgresql+psycopg2: string value '\\'``
   * String.literal_processor: ``%`` doubling for every paramstyle -> ``exec sqlite: string value '%'`` (qmark / named)
   * pymssql preparer ``_double_percents = False`` removed -> ``lex mssql+pymssql: string value '%'``
+  * seeded C05-a, MySQL render_literal_value doubles backslashes only ``if isinstance(value, str)`` ->
+    ``lex mysql+mysqldb: tagobj value Tag('\\')`` / ``jsonpath value ('\\', 1)`` (mysqlconnector, mariadb alike)
+  * seeded C05-b, literal_binds IN list of a bind_expression() type wrapped by splitting the rendered list on ``, `` ->
+    ``exec sqlite: bindexpr value ', ': literal_binds-rows-differ; ...`` and ``lex <every dialect>: bindexpr value ', '``
 """
 import datetime as dt
 import decimal
@@ -73,20 +97,25 @@ META = dict(
     level_text="Every value within the bound is rendered inline by the real compiler in every clause position and the statement is "
     "executed on SQLite next to its bound-parameter twin (four DBAPI paramstyles, so quote doubling and %-doubling are both really "
     "executed); for the backends that cannot run here the rendered statement is read by a reference lexer of that backend's literal "
-    "grammar and must have the same token shape as with a benign value and decode to the value. Complete for the bound.",
+    "grammar and must have the same token shape as with a benign value and decode to the value. The same is done for three kinds whose literal "
+    "is a string literal although the value is not a str or the rendering takes another route: a TypeDecorator turning an object into text, "
+    "a JSON path tuple, and a type with bind_expression() whose IN-list elements range over the list syntax's own alphabet (quote, comma, "
+    "space, parentheses). Complete for the bound.",
     level_note="Trusted: vf.models.sqllex_ref (validated against SQLite and against libmysqlclient / libpq(psycopg) / pymssql encoders "
     "at run time) and the 30-line %-formatting proxy over sqlite3. PostgreSQL / MySQL / SQL Server / Oracle are judged by grammar, not executed.",
     rule="case = (family, dialect variant or paramstyle, value); each case runs every position x mode. non-trivial = the value contains a "
     "character that is special in some literal grammar (quote, backslash, percent, colon, semicolon, dash, newline, non-ASCII) or is a "
-    "boundary number / temporal value / None",
+    "boundary number / temporal value / None; for the bind_expression() kind also comma and parentheses",
     assumptions=[
         "a format / pyformat DBAPI applies Python %-formatting to the statement whenever it is executed (MySQLdb semantics); pg8000, pymssql and mysqlconnector do not (as their dialects state)",
         "backends read string literals as described in vf.models.sqllex_ref (standard_conforming_strings / NO_BACKSLASH_ESCAPES both ways)",
         "values contain no NUL; floats are finite",
     ],
     bounds=dict(
-        quick="strings <=3 over 11 chars + idioms (1.5k), 45 non-string values; 9 positions x 3 literal modes x 4 paramstyles executed; 14 dialect configurations lexed",
-        thorough="strings <=4 over 11 chars + idioms (16k), 45 non-string values; 9 positions x 3 literal modes x 4 paramstyles executed; 14 dialect configurations lexed",
+        quick="strings <=3 over 11 chars + idioms (1.5k), 45 non-string values; 9 positions x 3 literal modes x 4 paramstyles executed; 14 dialect configurations lexed; "
+        "plus object-valued TypeDecorator (160 values, executed + lexed), JSON path tuples (159, lexed), bind_expression() type with strings <=3 over 6 list-syntax chars (258 executed, <=2 + idioms: 48 lexed)",
+        thorough="strings <=4 over 11 chars + idioms (16k), 45 non-string values; 9 positions x 3 literal modes x 4 paramstyles executed; 14 dialect configurations lexed; "
+        "plus object-valued TypeDecorator (160 values, executed + lexed), JSON path tuples (159, lexed), bind_expression() type with strings <=4 over 6 list-syntax chars (1554 executed, <=2 + idioms: 48 lexed)",
     ),
 )
 
@@ -128,7 +157,98 @@ OTHER_VALUES = [
     (k, None) for k in ("string", "int", "float", "numeric", "date", "datetime", "time", "bool")
 ]
 
+class Tag:
+    """an application value object persisted as its text by TagType: the Python value is NOT a str although
+    the rendered literal is a string literal"""
+
+    __slots__ = ("text",)
+
+    def __init__(self, text):
+        self.text = text
+
+    def __repr__(self):
+        return "Tag(%r)" % (self.text,)
+
+    def __eq__(self, other):
+        return isinstance(other, Tag) and other.text == self.text
+
+    def __hash__(self):
+        return hash(("Tag", self.text))
+
+
+class TagType(sa.types.TypeDecorator):
+    """non-str Python value -> string literal (process_bind_param)"""
+
+    impl = sa.String
+    cache_ok = True
+
+    def process_bind_param(self, value, dialect):
+        return value.text if value is not None else None
+
+
+class Lowered(sa.types.TypeDecorator):
+    """a type with bind_expression(): every bound value / literal is wrapped in a SQL function"""
+
+    impl = sa.String
+    cache_ok = True
+
+    def bind_expression(self, bindvalue):
+        return sa.func.lower(bindvalue)
+
+
+# kinds whose literal is a string literal although the value domain / rendering route is not that of String
+OBJ_KINDS = ("tagobj", "bindexpr", "jsonpath")
+# characters that are special to the IN-list / wrapper syntax itself (element separator, quote, parentheses)
+BX_ALPHA = ["'", ",", " ", "(", ")", "a"]
+BX_IDIOMS = ["x', 'y", "'), lower('", "a, b", "a,  b", ", , ", "\\, '"]
+# the literal_execute / render_postcompile route of an IN list of a bind_expression() type: see finding in the docstring
+BINDEXPR_LITERAL_EXECUTE = True
+
+
+def bx_strings(n):
+    """every string of length 1..n over BX_ALPHA: closed under the shrink steps of minimise(), so that the executed
+    IN / NOT IN cases (which need the value to be a row of the table) always reduce to the minimal failing element"""
+    out = []
+    for k in range(1, n + 1):
+        out.extend("".join(t) for t in itertools.product(BX_ALPHA, repeat=k))
+    return out
+
+
+def _core(kind, v):
+    """the text a value of an OBJ kind / string kind is made of"""
+    if kind == "tagobj":
+        return v.text
+    if kind == "jsonpath":
+        return v[0]
+    return v
+
+
+def _wrap(kind, s):
+    if kind == "tagobj":
+        return Tag(s)
+    if kind == "jsonpath":
+        return (s, 1)
+    return s
+
+
+def obj_values(tier, family):
+    """(kind, value) of the OBJ kinds.  tagobj / jsonpath: every string <=2 over ALPHA + idioms; bindexpr: every string
+    <=3 (thorough <=4) over BX_ALPHA when executed, <=2 + idioms when lexed"""
+    base = strings_upto(2)[1:] + IDIOMS
+    out = [("tagobj", Tag(s)) for s in [""] + base]
+    if family == "lex":
+        out += [("jsonpath", (s, 1)) for s in base]
+        out += [("bindexpr", s) for s in bx_strings(2) + BX_IDIOMS]
+    else:
+        out += [("bindexpr", s) for s in bx_strings(3 if tier == "quick" else 4)]
+    out += [("tagobj", None), ("bindexpr", None)]
+    return out
+
+
 TYPES = dict(
+    tagobj=lambda: TagType(),
+    bindexpr=lambda: Lowered(),
+    jsonpath=lambda: sa.JSON.JSONPathType(),
     string=lambda: sa.String(),
     unicode=lambda: sa.Unicode(),
     text=lambda: sa.Text(),
@@ -142,6 +262,9 @@ TYPES = dict(
     bool=lambda: sa.Boolean(),
 )
 BENIGN = dict(
+    tagobj=Tag("x"),
+    bindexpr="x",
+    jsonpath=("x", 1),
     string="x",
     unicode="x",
     text="x",
@@ -154,7 +277,7 @@ BENIGN = dict(
     time=dt.time(4, 5, 6),
     bool=True,
 )
-COLUMN = dict(string="s", unicode="s", text="s", unicodetext="s", int="i", float="f", numeric="n", date="d", datetime="dtm", time="tm", bool="b")
+COLUMN = dict(tagobj="s", bindexpr="s", jsonpath="s", string="s", unicode="s", text="s", unicodetext="s", int="i", float="f", numeric="n", date="d", datetime="dtm", time="tm", bool="b")
 
 
 # ------------------------------------------------------------------ %-formatting proxy DBAPI over sqlite3
@@ -230,7 +353,10 @@ class World:
         self.t2 = sa.Table("t2", self.meta, sa.Column("id", sa.Integer, primary_key=True), *[sa.Column(c.name, c.type) for c in self.t.c if c.name != "id"])
         self.conn = self.engine.connect()
         self.meta.create_all(self.conn)
-        rows = [dict(s=s) for s in strings_upto(3 if tier == "quick" else 4)]
+        base = strings_upto(3 if tier == "quick" else 4)
+        have = set(base)
+        # the IN-list alphabet of the bind_expression() kind must be present as rows, or IN / NOT IN cannot tell values apart
+        rows = [dict(s=s) for s in base + [x for x in bx_strings(3 if tier == "quick" else 4) if x not in have]]
         for kind, v in OTHER_VALUES:
             if v is not None:
                 rows.append({COLUMN[kind]: v})
@@ -260,6 +386,9 @@ def _bp(v, typ, le, key=None):
 
 
 COMPANION = dict(
+    tagobj=Tag("y"),
+    bindexpr="y",
+    jsonpath=("y", 1),
     string="y",
     unicode="y",
     text="y",
@@ -333,9 +462,10 @@ def exec_case(style, tier, kind, v):
             continue
         csql, cparams = w.captured[-1]
         base_raw = _rows(conn.exec_driver_sql(csql, cparams))
+        lit_exec = kind != "bindexpr" or BINDEXPR_LITERAL_EXECUTE
         # --- literal_execute, processed
         try:
-            got = _rows(conn.execute(build(v, True)))
+            got = _rows(conn.execute(build(v, True))) if lit_exec else base
             if not _req(got, base):
                 out.append(("%s:literal_execute-rows-differ" % pname, "literal %r bound %r" % (got[:3], base[:3])))
         except Exception as e:
@@ -343,6 +473,8 @@ def exec_case(style, tier, kind, v):
             conn.rollback()
         # --- literal_binds / render_postcompile strings, raw
         for mode, st, ckw in (("literal_binds", stmt_b, dict(literal_binds=True)), ("render_postcompile", build(v, True), dict(render_postcompile=True))):
+            if mode == "render_postcompile" and not lit_exec:
+                continue
             try:
                 comp = st.compile(w.engine, compile_kwargs=ckw)
                 sql = str(comp)
@@ -356,10 +488,11 @@ def exec_case(style, tier, kind, v):
                 conn.rollback()
     # --- INSERT VALUES: literal_execute vs bound, read back
     colname = COLUMN[kind]
+    lit_exec_ins = kind != "bindexpr" or BINDEXPR_LITERAL_EXECUTE
     try:
         conn.execute(w.t2.delete())
         conn.execute(w.t2.insert().values({"id": 1, colname: _bp(v, typ(), False)}))
-        conn.execute(w.t2.insert().values({"id": 2, colname: _bp(v, typ(), True)}))
+        conn.execute(w.t2.insert().values({"id": 2, colname: _bp(v, typ(), lit_exec_ins)}))
         sql = str(w.t2.insert().values({"id": 3, colname: _bp(v, typ(), False)}).compile(w.engine, compile_kwargs=dict(literal_binds=True)))
         conn.exec_driver_sql(sql)
         back = _rows(conn.execute(sa.select(w.t2.c.id, w.t2.c[colname], sa.func.typeof(w.t2.c[colname])).order_by(w.t2.c.id)))
@@ -499,9 +632,18 @@ _LT = _lt("t")
 _LT2 = _lt("t2")
 
 
+_LTJ = sa.table("tj", sa.column("id", sa.Integer), sa.column("j", sa.JSON))
+
+
 def lex_positions(kind):
-    pos = positions(kind, _LT, _LT2, companion=COMPANION[kind])
     typ = TYPES[kind]
+    if kind == "jsonpath":
+        # the path of a JSON index operation is a (key, index) tuple rendered as ONE string literal
+        return {
+            "select-list": lambda v, le: sa.select(_bp(v, typ(), le).label("v")),
+            "json-index": lambda v, le: None if le else sa.select(_LTJ.c.j[v].label("v")).where(_LTJ.c.j[v].is_not(None)),
+        }
+    pos = positions(kind, _LT, _LT2, companion=COMPANION[kind])
     pos.pop("text-bind", None)
     pos["insert-values"] = lambda v, le: _LT2.insert().values({"id": 1, COLUMN[kind]: _bp(v, typ(), le)})
     pos["update-set"] = lambda v, le: _LT2.update().values({COLUMN[kind]: _bp(v, typ(), le)}).where(_LT2.c[COLUMN[kind]] != _bp(v, typ(), le))
@@ -559,6 +701,8 @@ def lex_case(name, kind, v, core_only=False):
             continue
         for mode in ("literal_binds", "render_postcompile"):
             le = mode == "render_postcompile"
+            if le and kind == "bindexpr":
+                continue  # dialect-independent route; decided by execution (family exec)
             try:
                 sv = build(v, le)
                 if sv is None:
@@ -584,10 +728,22 @@ def lex_case(name, kind, v, core_only=False):
                 continue
             if v is None:
                 continue
-            bad = _decode_mismatch(kind, v, ben, toks, toksb)
+            if kind in OBJ_KINDS:
+                ev, eb = _bound_text(kind, v, d), _bound_text(kind, ben, d)
+                if not isinstance(ev, str) or not isinstance(eb, str):
+                    continue  # the bound route does not send text on this driver (asyncpg JSON path): shape only
+                bad = _decode_mismatch("string", ev, eb, toks, toksb)
+            else:
+                bad = _decode_mismatch(kind, v, ben, toks, toksb)
             if bad:
                 out.append(("%s:%s:literal-denotes-other-value" % (pname, mode), "%r: %s" % (txt[:200], bad)))
     return out, n
+
+
+def _bound_text(kind, v, d):
+    """what the bound-parameter route sends for v: the type's own bind processor on that dialect"""
+    proc = TYPES[kind]().dialect_impl(d).bind_processor(d)
+    return proc(v) if proc is not None else v
 
 
 def _temporal_parse(kind, text):
@@ -660,10 +816,12 @@ def _skey(s):
     return (len(s), [_ORDER.get(ch, 50 + ord(ch)) for ch in s])
 
 
-def minimise(v, kind, fails_fn):
-    if not isinstance(v, str):
+def minimise(v, kind, fails_fn, vkind="string"):
+    if v is None or not isinstance(_core(vkind, v), str):
         return v
-    cur = v
+    inner = fails_fn
+    fails_fn = lambda x: inner(_wrap(vkind, x))  # noqa: E731
+    cur = _core(vkind, v)
     improved = True
     while improved:
         improved = False
@@ -675,7 +833,7 @@ def minimise(v, kind, fails_fn):
                 cur = cand
                 improved = True
                 break
-    return cur
+    return _wrap(vkind, cur)
 
 
 def _jsonable(kind, v):
@@ -685,13 +843,22 @@ def _jsonable(kind, v):
 
 
 def _unjson(c):
-    return eval(c["py"], dict(datetime=dt, Decimal=D, decimal=decimal))  # noqa: S307 - our own repr of enumerated values
+    return eval(c["py"], dict(datetime=dt, Decimal=D, decimal=decimal, Tag=Tag))  # noqa: S307 - our own repr of enumerated values
 
 
 def _report(rec, family, where, kind, v, res, fails_fn):
+    memo = {}
+    inner = fails_fn
+
+    def fails_fn(x):  # one evaluation per candidate (the case functions are pure in the value)
+        k = repr(x)
+        if k not in memo:
+            memo[k] = inner(x)
+        return memo[k]
+
     minima = []
     for fk, detail in res:
-        mv = minimise(v, fk, fails_fn)
+        mv = minimise(v, fk, fails_fn, kind)
         if mv not in minima:
             minima.append(mv)
     for mv in minima:
@@ -702,12 +869,30 @@ def _report(rec, family, where, kind, v, res, fails_fn):
         rec.violation(sig, " | ".join("%s: %s" % kd for kd in rm)[:3000] + " (first seen on %r)" % (v,), dict(family=family, where=where, **_jsonable(kind, mv)))
 
 
+def _minus_string(kind, v, res, string_fn):
+    """an OBJ kind shares String's rendering of the text: a failure class that the plain str of the same text shows
+    as well is that (already reported) defect, not one of this kind"""
+    if not res or kind not in OBJ_KINDS or v is None:
+        return res
+    known = set(k.split(":", 1)[1] for k, _ in string_fn(_core(kind, v)))
+    return [(k, dd) for k, dd in res if k.split(":", 1)[1] not in known]
+
+
+def exec_case_f(style, tier, kind, v):
+    return _minus_string(kind, v, exec_case(style, tier, kind, v), lambda s: exec_case(style, tier, "string", s))
+
+
+def lex_case_f(name, kind, v, core_only=False):
+    res, n = lex_case(name, kind, v, core_only)
+    return _minus_string(kind, v, res, lambda s: lex_case(name, "string", s, core_only)[0]), n
+
+
 # ------------------------------------------------------------------ shards
 
 
 def _all_values(tier):
     vals = [("string", s) for s in string_values(tier)]
-    return vals + OTHER_VALUES
+    return vals + OTHER_VALUES + [(k, v) for k, v in obj_values(tier, "exec") if k != "jsonpath"]
 
 
 def shards(tier, seed):
@@ -724,6 +909,8 @@ def shards(tier, seed):
 
 
 def _nontrivial(kind, v):
+    if v is not None and kind in OBJ_KINDS:
+        return any(ch in SPECIAL or ch in ",()" or ord(ch) > 127 or ord(ch) < 32 for ch in _core(kind, v))
     if v is None or kind != "string":
         return True
     return any(ch in SPECIAL or ord(ch) > 127 or ord(ch) < 32 for ch in v)
@@ -752,39 +939,40 @@ def run_shard(shard, tier, rec):
         for idx, (kind, v) in enumerate(_all_values(tier)):
             if idx % nparts != part:
                 continue
-            res = exec_case(style, tier, kind, v)
+            res = exec_case_f(style, tier, kind, v)
             nt = _nontrivial(kind, v)
             rec.case(("exec", style, kind, repr(v)), nontrivial=nt)
             rec.outcome(("exec", style, kind, tuple(k for k, _ in res)))
             if nt and (idx // nparts) % 211 == 5:
                 rec.sample(dict(family="exec", paramstyle=style, kind=kind, value=repr(v), failures=[k for k, _ in res]))
             if res:
-                _report(rec, "exec", "sqlite", kind, v, [(k, "[paramstyle %s] %s" % (style, d)) for k, d in res], lambda x, style=style, kind=kind: exec_case(style, tier, kind, x))
+                _report(rec, "exec", "sqlite", kind, v, [(k, "[paramstyle %s] %s" % (style, d)) for k, d in res], lambda x, style=style, kind=kind: exec_case_f(style, tier, kind, x))
         return
     if fam == "lex":
         _, name, part, nparts = shard
         if name in CORE_CONFIGS:
-            vals = _all_values(tier)
+            vals = [("string", s) for s in string_values(tier)] + OTHER_VALUES
         else:
             vals = [("string", s) for s in strings_upto(2 if tier == "quick" else 3) + IDIOMS] + OTHER_VALUES
         extra = [(k, s) for k in ("unicode", "text", "unicodetext") for s in strings_upto(2) + IDIOMS]
-        for idx, (kind, v) in enumerate(vals + extra):
+        objs = [(k, v) for k, v in obj_values(tier, "lex") if not (k == "jsonpath" and name == "default")]  # no generic JSON path rendering
+        for idx, (kind, v) in enumerate(vals + extra + objs):
             if idx % nparts != part:
                 continue
-            core_only = isinstance(v, str) and len(v) > 2 and v not in IDIOMS
-            res, n = lex_case(name, kind, v, core_only)
+            core_only = kind not in OBJ_KINDS and isinstance(v, str) and len(v) > 2 and v not in IDIOMS
+            res, n = lex_case_f(name, kind, v, core_only)
             if res and kind in ("unicode", "text", "unicodetext"):
                 # same rendering path as String unless the kinds of failure differ: report under "string" only
                 rs, _ = lex_case(name, "string", v, core_only)
                 if sorted(k for k, _ in rs) == sorted(k for k, _ in res):
                     res = []
-            nt = _nontrivial(kind if kind in ("int", "float", "numeric", "date", "datetime", "time", "bool") else "string", v)
+            nt = _nontrivial(kind if kind in ("int", "float", "numeric", "date", "datetime", "time", "bool") + OBJ_KINDS else "string", v)
             rec.case(("lex", name, kind, repr(v)), nontrivial=nt, n=max(n, 1))
             rec.outcome(("lex", name, kind, tuple(k for k, _ in res)))
             if nt and (idx // nparts) % 397 == 11 and isinstance(v, str):
                 rec.sample(dict(family="lex", dialect=name, kind=kind, value=repr(v), rendered=_render(name, sa.select(_bp(v, TYPES[kind](), False)), "literal_binds")[0]))
             if res:
-                _report(rec, "lex", name, kind, v, res, lambda x, name=name, kind=kind, co=core_only: lex_case(name, kind, x, co)[0])
+                _report(rec, "lex", name, kind, v, res, lambda x, name=name, kind=kind, co=core_only: lex_case_f(name, kind, x, co)[0])
         return
     raise AssertionError(shard)
 
@@ -798,15 +986,15 @@ def replay(case):
     if fam == "exec":
         tier = "quick" if not isinstance(v, str) or len(v) <= 3 else "thorough"
         for style in PARAMSTYLES:
-            res = exec_case(style, tier, kind, v)
+            res = exec_case_f(style, tier, kind, v)
             if res:
-                _report(rec, fam, where, kind, v, res, lambda x: exec_case(style, tier, kind, x))
+                _report(rec, fam, where, kind, v, res, lambda x: exec_case_f(style, tier, kind, x))
         seen = set()
         rec.out = [x for x in rec.out if not (x[0] in seen or seen.add(x[0]))]
     else:
-        res, _ = lex_case(where, kind, v)
+        res, _ = lex_case_f(where, kind, v)
         if res:
-            _report(rec, fam, where, kind, v, res, lambda x: lex_case(where, kind, x)[0])
+            _report(rec, fam, where, kind, v, res, lambda x: lex_case_f(where, kind, x)[0])
     return rec.out
 
 
